@@ -25,7 +25,9 @@ def fioStep (toks : List String) : String :=
   | ["rw", a, b] => match parseHex a, parseHex b with
     | some a, some b => s!"w=0 r=0 {toHex a} a=0 r=0 {toHex (a ++ b)}"
     | _, _ => "bad-op"
-  | ["fault", k] => if ["full-short", "full-long", "missing", "dir", "wdir"].contains k then "rc=-1" else "bad-op"
+  | ["fault", k] =>
+    -- every injected fault (incl. `shrunk-<from>-<to>`: fewer bytes than the sampled size) must be reported as failure
+    if ["full-short", "full-long", "missing", "dir", "wdir"].contains k || k.startsWith "shrunk-" then "rc=-1" else "bad-op"
   | _ => "bad-op"
 
 end Gpc.Driver
